@@ -22,7 +22,7 @@ from vlib.props.C11 import FixedRandom, members, fresh
 # print a return type / `def` regardless of the annotation)
 EXPRESSIBLE = {
     'var_type': {'kotlin', 'groovy', 'scala'},
-    'ret_type': {'kotlin', 'scala'},
+    'ret_type': {'kotlin', 'scala', 'groovy'},      # groovy: local functions only
     'diamond': {'java', 'kotlin', 'groovy', 'scala'},
     'final': {'java', 'kotlin', 'groovy', 'scala'},
 }
@@ -151,19 +151,40 @@ def h_fidelity(eng, tier, lang):
                 for s in n.superclasses:
                     if not has_token(base, s.class_type.name):
                         missing.append('supertype %s of %s' % (s.class_type.name, n.name))
+        # type parameters of a function occur in the head of its declaration (the text before the parameter list)
+        lines = base.splitlines()
+        for n in all_nodes(p0):
+            if isinstance(n, ast.FunctionDeclaration) and n.type_parameters:
+                heads = [l.split('(')[0] for l in lines if has_token(l.split('(')[0], n.name)]
+                if not heads:
+                    continue
+                for tpar in n.type_parameters:
+                    if not any(has_token(h, tpar.name) for h in heads):
+                        missing.append('type parameter %s of function %s' % (tpar.name, n.name))
+                        break
+                eng.event('generic-function-checked')
         obs.append(Ob('inventory|declared-names-and-literals-occur|%s' % lang, not missing, dict(case, missing=missing[:6])))
         obs.append(Ob('inventory|balanced|%s' % lang, balanced(base), case))
         eng.event('inventory')
-    # ---------------- one perturbation at a symbolic position
+    # ---------------- one perturbation at a symbolic position, applied in place to the program the
+    # translator has already translated (the driver uses one translator per program across all stages)
     q = P.clone(p0)
+    reused = F.TRANSLATORS[lang]('src.pkg', {})
+    with FixedRandom():
+        first = F.translate(lang, q, translator=reused)
+    obs.append(Ob('reused-translator-baseline|%s' % lang, first == base, case))
     if kind in ('var_type', 'final'):
         sites = [d for ns, d in declarations_with_namespace(q) if isinstance(d, ast.VariableDeclaration)
                  and (kind == 'final' or d.var_type is not None or d.inferred_type is not None)
                  # groovy declares top-level variables as fields of Main and always prints their type
                  and not (lang == 'groovy' and kind == 'var_type' and ns == ast.GLOBAL_NAMESPACE)]
     elif kind == 'ret_type':
-        sites = [d for _, d in declarations_with_namespace(q) if isinstance(d, ast.FunctionDeclaration)
+        sites = [(ns, d) for ns, d in declarations_with_namespace(q) if isinstance(d, ast.FunctionDeclaration)
                  and d.body is not None and (d.ret_type is not None or d.inferred_type is not None)]
+        if lang == 'groovy':
+            # groovy expresses an omitted return type for local functions only (def inner = {...})
+            sites = [(ns, d) for ns, d in sites if len(ns) >= 2 and ns[-1][:1].islower() and d.get_type() != p0.bt_factory.get_void_type()]
+        sites = [d for _, d in sites]
     else:
         # java and groovy never print explicit type arguments of generic method calls
         sites = [n for n in instantiations(q) if isinstance(n, ast.New) or lang in ('kotlin', 'scala')]
@@ -194,7 +215,11 @@ def h_fidelity(eng, tier, lang):
         d.is_final = not d.is_final
     try:
         with FixedRandom():
-            other = F.translate(lang, q)
+            other = F.translate(lang, P.clone(q))
+            again = F.translate(lang, q, translator=reused)
+        obs.append(Ob('reused-translator-sees-the-change|%s|%s' % (kind, lang), again == other,
+                      lambda: dict(case, site=name, fresh=changed_lines(base, other)[1][:2],
+                                   reused=changed_lines(base, again)[1][:2])))
     except Exception as e:  # noqa
         return obs + [Ob('perturbed-program-translates|%s|%s' % (kind, lang), False, dict(case, site=name, exception=repr(e)))]
     case.update(site=name, carried_before=carried_before)
